@@ -1053,9 +1053,10 @@ func (p *PubSub) processLoop(ctx context.Context) {
 			if ok {
 				q.Close()
 				delete(p.peers, pid)
-				p.clearPeerFromTopicsState(pid)
 				p.rt.OnClosedOutboundStream(pid)
 			}
+			// what the peer announced came in over its own stream, whether or not we have one to it
+			p.clearPeerFromTopicsState(pid)
 
 		case <-ctx.Done():
 			p.logger.Info("pubsub processloop shutting down")
